@@ -1,7 +1,10 @@
 """C04 -- responses leave in the order their requests arrived (io.rs response queue)."""
 import itertools
 
+from props import inbound_common as IB
 from props.base import Part
+
+USES_GEN = True
 
 RULE = ("schedules of request arrivals (handler ready at once with/without a response, or deferred) and "
         "completions of deferred handlers: exhaustive for n <= N requests (every mode vector, every "
@@ -116,20 +119,32 @@ def parts(tier, rng):
                 d = pending.pop(rng.randrange(len(pending)))
                 seq.append((2, d, rng.choice([0, 0, 1])))
         rnd.append(fmt(seq if rng.random() < 0.5 else batch_variants(seq, rng)))
-    return [RQPart("exhaustive", "respq", cases, shards=16,
-                   rule="all mode vectors x completion interleavings, n <= %d, single and batched arrivals" % nmax),
-            RQPart("random-long", "respq", rnd, shards=16, rule="random schedules with 5..12 requests")]
+    res = [RQPart("exhaustive", "respq", cases, shards=16,
+                  rule="all mode vectors x completion interleavings, n <= %d, single and batched arrivals" % nmax),
+           RQPart("random-long", "respq", rnd, shards=16, rule="random schedules with 5..12 requests")]
+    # connection level: real v3/v5 servers, the responses (PUBACK / PUBREC / PUBCOMP / SUBACK / UNSUBACK /
+    # PINGRESP) seen by the peer are in the order of the requests they answer
+    for p in IB.make_parts(tier, rng, ("C04",), clients=False):
+        p.name = "connection-" + p.name
+        res.append(p)
+    return res
 
 
 def replay_parts(rp):
+    if rp.get("engine", "respq") != "respq":
+        return IB.replay_parts(rp, ("C04",))
     return [RQPart("replay", "respq", [rp["case"]], shards=1)]
 
 
 def known_signature(part, case, impl_obs, oracle):
+    if isinstance(part, IB.InbPart):
+        return IB.known_signature(part, case, impl_obs, oracle)
     return None
 
 
 def clause_text(part, oracle):
+    if isinstance(part, IB.InbPart):
+        return IB.clause_text(part, oracle)
     f = oracle.split(";")[0].split(",")
     return ("after operation %s the bytes written to the peer are not the responses of the longest completed "
             "prefix of requests in arrival order" % (f[1] if len(f) > 1 else "?"))
